@@ -86,6 +86,10 @@ func wireConst(p *Program, name string) (int64, bool) {
 }
 
 func checkC09(p *Program, r *Report) {
+	// mutation sweep (bloom/filter.go `return false` / `return true` flipped in matches): the verdict of the membership
+	// primitive for an unloaded filter is false, and for a loaded filter with an empty bit array it is true (insertion
+	// into it is a no-op, so "no false negatives" needs the all-matching reading)
+	defer c09constVerdicts(p, r)
 	// round 7 (C09-agent7-m2): "no false negatives" needs the read-modify-write of a bit to be exclusive: the lock
 	// discipline of bloom.Filter (C20) is a necessary condition here too
 	defer func() {
@@ -884,4 +888,61 @@ func helperDesc(p *Program, fn *ssa.Function, hc *ssa.Call, depth int) (string, 
 		}
 	}
 	return d, true
+}
+
+func c09constVerdicts(p *Program, r *Report) {
+	m := p.Func("bloom", "(*Filter).Matches")
+	if m == nil {
+		r.Unresolved("C09.unloaded", "(*bloom.Filter).Matches")
+		return
+	}
+	var prim *ssa.Function
+	for _, b := range m.Blocks {
+		for _, in := range b.Instrs {
+			if c, ok := in.(*ssa.Call); ok {
+				if cal := c.Call.StaticCallee(); cal != nil && p.InRepo(cal) && cal.Pkg == m.Pkg && len(cal.Params) == 2 {
+					prim = cal
+				}
+			}
+		}
+	}
+	if prim == nil {
+		r.Unresolved("C09.unloaded", "membership primitive called by Matches")
+		return
+	}
+	n := 0
+	for _, ret := range returnsOf(prim) {
+		v, isK := constBool(ret.Results[0])
+		if !isK {
+			continue
+		}
+		// which early exit is this?  look at the conditions that select it
+		nilEdge, emptyEdge := false, false
+		for _, cd := range MustCondsAtBlock(prim, ret.Block()) {
+			bo, truth, isB := condBinOp(cd)
+			if !isB {
+				continue
+			}
+			eq := (bo.Op == token.EQL) == truth
+			if (isNilConst(bo.X) || isNilConst(bo.Y)) && eq && (bo.Op == token.EQL || bo.Op == token.NEQ) {
+				nilEdge = true
+			}
+			if k, isC := constInt(bo.Y); isC && k == 0 && eq && (bo.Op == token.EQL || bo.Op == token.NEQ) {
+				if c, isCall := bo.X.(*ssa.Call); isCall && isBuiltin(&c.Call, "len") {
+					emptyEdge = true
+				}
+			}
+		}
+		switch {
+		case nilEdge && !emptyEdge:
+			n++
+			r.Add("C09.unloaded", FnName(prim), "an unloaded filter matches nothing", ret.Pos(), !v, "constant verdict on the message == nil edge")
+		case emptyEdge:
+			n++
+			r.Add("C09.unloaded", FnName(prim), "a loaded filter with an empty bit array matches everything (insertion into it is a no-op)", ret.Pos(), v, "constant verdict on the len(filter) == 0 edge")
+		}
+	}
+	if n == 0 {
+		r.Unresolved("C09.unloaded", "constant verdicts of the membership primitive")
+	}
 }
